@@ -108,6 +108,11 @@ def eval_expr(e, env) -> tuple:
             alt = unparse(ast.Compare(left=e.left, ops=[_OPPOSITE[type(e.ops[0])]()], comparators=e.comparators))
             if alt in assume:
                 return ('const', not assume[alt])
+    if env.get('__order__') and isinstance(e, (ast.Attribute, ast.Name, ast.Call)):
+        # truthiness of a sequence whose length is compared with 0 by the assumptions: `if not xs` is `if len(xs) == 0`
+        rel0 = env['__order__'].get((f"len({_text_of(e, env)})", '0'))
+        if rel0 is not None:
+            return ('const', rel0 != '=')
     if isinstance(e, ast.Compare) and len(e.ops) == 1 and env.get('__order__'):
         lt, rt = _text_of(e.left, env), _text_of(e.comparators[0], env)
         order = env['__order__']
